@@ -226,6 +226,12 @@ pub fn exec(it: &mut Interp, toks: &[&str], out: &mut Vec<String>) -> bool {
                 return true;
             };
             let Ok(id) = id.parse::<u32>() else { return false };
+            // `HpoTerm::try_new(ontology, id)` is the same lookup
+            let via_new = hpo::HpoTerm::try_new(o, id).ok().map(|t| (t.id().as_u32(), t.name().to_string()));
+            let via_hpo = o.hpo(id).map(|t| (t.id().as_u32(), t.name().to_string()));
+            if via_new != via_hpo {
+                out.push(format!("oracle FAIL hpo: HpoTerm::try_new({id}) = {via_new:?}, Ontology::hpo = {via_hpo:?}"));
+            }
             match o.hpo(id) {
                 Some(t) => out.push(format!("some {} {}", t.id().as_u32(), name(t.name()))),
                 None => out.push("none".to_string()),
@@ -549,6 +555,18 @@ pub fn oracle_ic(o: &Ontology) -> Result<(), String> {
             }
             if !v.is_finite() || v < 0.0 {
                 return Err(format!("term {id} kind {k}: ic {v} negative or not finite"));
+            }
+            // the public setters of `InformationContent` compute the same value from the counts
+            {
+                let mut fresh = hpo::term::InformationContent::default();
+                let r = match k {
+                    0 => fresh.set_gene(totals[k], ns[k]),
+                    1 => fresh.set_omim_disease(totals[k], ns[k]),
+                    _ => fresh.set_orpha_disease(totals[k], ns[k]),
+                };
+                if r.is_ok() && fresh.get_kind(&kinds[k]).to_bits() != v.to_bits() {
+                    return Err(format!("term {id} kind {k}: InformationContent::set_* gives {}, stored {v}", fresh.get_kind(&kinds[k])));
+                }
             }
             let want = ic_expected(ns[k], totals[k]);
             let tol = 4.0 * f32::EPSILON * want.abs().max(1.0);
